@@ -299,7 +299,7 @@ Definition from_bedgraph_gen (append_kind : kind -> kind) (k : kind) (recs : lis
 Definition from_bedgraph_pinned := from_bedgraph_gen append_kind_pinned. (* the code at /repo HEAD *)
 Definition from_bedgraph_fixed := from_bedgraph_gen append_kind_fixed.   (* with notes/C09.fix-1.diff *)
 (* ---- the variant in force (one-line switch): from_bedgraph_pinned now; from_bedgraph_fixed once fix-1 is in /repo ---- *)
-Definition from_bedgraph := from_bedgraph_pinned.
+Definition from_bedgraph := from_bedgraph_fixed.
 
 (* ---------- GenomicRunLengthArray.from_intervals ---------- *)
 Fixpoint interleave2 {A} (a b : list A) : list A :=
@@ -362,9 +362,9 @@ Definition from_intervals_array_fixed (clean : list Z -> list (Z * Z) -> list Z 
     match mk_rle events vs with Some r => Some (k, r) | None => None end.
 (* ---- the variant in force (one-line switches): the code at /repo HEAD.  Once notes/C09.fix-2.diff is in /repo use
         [from_intervals_array_fixed clean_in_force]; once notes/C09.fix-3.diff is in /repo set clean_in_force := clean_fixed. ---- *)
-Definition clean_in_force := clean_pinned.
+Definition clean_in_force := clean_fixed.
 Definition from_intervals_scalar := from_intervals_scalar_gen clean_in_force.
-Definition from_intervals_array := from_intervals_array_pinned.
+Definition from_intervals_array := from_intervals_array_fixed clean_in_force.
 
 (* ---------- get_boolean_mask: argsort on start, merge_intervals(distance 0), drop empty, from_intervals ---------- *)
 Fixpoint insert_sorted (r : rec1) (l : list rec1) : list rec1 :=
